@@ -35,7 +35,7 @@ import functools
 import sentinel
 from six import iteritems
 
-from rig.utils.docstrings import add_signature_to_docstring
+from rig.utils.docstrings import add_signature_to_docstring, _getargspec
 
 
 Required = sentinel.create('Required')
@@ -127,7 +127,7 @@ class ContextMixin(object):
         def decorator(f):
             # Extract any positional and positional-and-key-word arguments
             # which may be set.
-            arg_names, varargs, keywords, defaults = inspect.getargspec(f)
+            arg_names, varargs, keywords, defaults = _getargspec(f)
 
             # Sanity check: non-keyword-only arguments should't be present in
             # the keyword-only-arguments list.
